@@ -37,8 +37,8 @@ m = {
         "add_only": True,
     },
     "engines": [
-        {"name": "engine-S", "path": "shim/zzvs + tools/vinstr + harness/engine/explore.go", "serves_properties": [i for i in ids if i in claimed and claimed[i]["engine"] == "engine-S"],
-         "kind_free_text": "stateless model checker for Go written for this task: controlled scheduler owning every goroutine/channel/select/WaitGroup/map-order/NumCPU choice of the real gofasta code, DFS by replay, preemption- and map-deviation-bounded or unbounded with happens-before state caching, sharded over 16 processes"},
+        {"name": "engine-S", "path": "shim/zzvs + tools/vinstr + harness/engine/explore.go", "serves_properties": [i for i in ids if i in claimed and (claimed[i]["engine"] == "engine-S" or i in ("C01","C02","C03","C04","C05","C06","C07","C08","C09","C10","C11","C13","C14","C15","C17"))],
+         "kind_free_text": "stateless model checker for Go written for this task: controlled scheduler (one goroutine at a time) owning every goroutine start, channel operation, select, WaitGroup/Mutex/Once/Pool operation, sync/atomic operation, access to a package-level variable written after init, map iteration order and NumCPU answer of the real gofasta code; DFS by replay, unbounded with happens-before state caching or preemption-/delay-/map-deviation-bounded, plus the enumerated starvation and suspension families; sharded over 16 processes. Decides C12, C18, C19 and the schedule layers of the input-quantified properties"},
         {"name": "engine-I", "path": "harness/*.go (gen_*, ref_*, cNN.go)", "serves_properties": [i for i in ids if i in claimed and claimed[i]["engine"] == "engine-I"],
          "kind_free_text": "bounded-exhaustive enumeration of input/option shapes executed on the real entry points under the controlled scheduler (exact panic/deadlock outcomes), judged by independent Go reference models or by relations between runs of the real code; subset replayed on the real CLI binary"},
     ],
